@@ -331,16 +331,7 @@ func c01CaseCutP(fn *ssa.Function, ts []c01StrTest, m string, isSubj func(v ssa.
 		if g == nil || !inModule(g) || len(g.Blocks) == 0 || g.Signature.Results().Len() != 1 {
 			continue
 		}
-		takesDesc := false
-		for _, a := range call.Call.Args {
-			if c01IsOCIDescriptor(a.Type()) {
-				takesDesc = true
-			}
-		}
-		if !takesDesc {
-			continue
-		}
-		gt := c01StrTests(g, isSubj)
+		gt := c01PredicateTests(call, isSubj)
 		if len(gt) == 0 {
 			continue // not a media-type predicate
 		}
@@ -370,6 +361,45 @@ func c01CaseCutP(fn *ssa.Function, ts []c01StrTest, m string, isSubj func(v ssa.
 		}
 	}
 	return
+}
+
+// c01PredicateTests: call is a call of a module function g that receives a
+// descriptor or its media type; returns g's own comparisons of that media type
+// with constants (empty when g is not such a predicate).
+func c01PredicateTests(call *ssa.Call, isSubj func(v ssa.Value) bool) []c01StrTest {
+	g := StaticCallee(call)
+	if g == nil || !inModule(g) || len(g.Blocks) == 0 {
+		return nil
+	}
+	subj := isSubj
+	relevant := false
+	for i, a := range call.Call.Args {
+		if i >= len(g.Params) {
+			break
+		}
+		if c01IsOCIDescriptor(a.Type()) {
+			relevant = true
+		}
+		if b, isStr := a.Type().Underlying().(*types.Basic); isStr && b.Kind() == types.String {
+			isMT := false
+			for _, r := range Roots(a) {
+				if isSubj(r) {
+					isMT = true
+				}
+			}
+			if isMT {
+				relevant = true
+				prm := g.Params[i]
+				al := Aliases(prm)
+				prev := subj
+				subj = func(v ssa.Value) bool { return prev(v) || al[v] }
+			}
+		}
+	}
+	if !relevant {
+		return nil
+	}
+	return c01StrTests(g, subj)
 }
 
 // c01EmptyStrEdges: edges on which a string x with match(x) is known to be
